@@ -18,7 +18,7 @@ RULE = ("modules of documentable items of every kind (nesting <=3, optional @mod
         "doc's unique marker occurs nowhere else. Non-trivial: a doc with >=2 lines and one of {line starting with "
         "'#','[',']', leading spaces, non-ASCII, tab in the block indentation, nesting depth>=1, empty line}; "
         "distinct by SHA-1 of the case")
-RULE_MORE = "doccomments on implementing definitions; body lines repeating the text of the opening line ('@module ...', '#[[['); 4 (thorough 32) modules of hundreds of items per run (item list tiled 25..45 times). Later: strip patterns drawn; ruler lines; the first declared parameter placed in doc text."
+RULE_MORE = "doccomments on implementing definitions; body lines repeating the text of the opening line ('@module ...', '#[[['); 4 (thorough 32) modules of hundreds of items per run (item list tiled 25..45 times). Later: strip patterns drawn; ruler lines; the first declared parameter placed in doc text; (round 10) the kwargs trigger string configured (`@kwargs`, `KWARGS`) and doc lines consisting of it."
 ASSUMPTIONS = ["sources are UTF-8 without BOM", "a whitespace-only output line stands for a blank doc line",
                "the entry that owns a doccomment is located with the reference model validated by C02"]
 BUDGET = {"quick": {"shards": 4, "examples": 350}, "thorough": {"shards": 16, "examples": 5000}}
@@ -44,7 +44,7 @@ def _line(maxlen):
     tail = st.sampled_from(["", "", " ", "   ", "#", "]", "\\"])
     return st.one_of(
         st.just(""),
-        st.sampled_from([":type <<P0>>:", ":param <<P0>>:", ":type <<P0>>: ", ":type <<P0>>: given", ":returns:"]),
+        st.sampled_from(["<<TRIG>>", ":type <<P0>>:", ":param <<P0>>:", ":type <<P0>>: ", ":type <<P0>>: given", ":returns:", "  <<TRIG>>", "<<TRIG>> opts: more"]),
         # the text of the doccomment's own opening line, again, alone or at the end of a body line
         # long lines with leading blanks (relative indentation of continuation lines, code samples)
         st.sampled_from(["    an indented continuation line that is definitely longer than forty characters",
@@ -86,7 +86,9 @@ def strategy(tier, repeat=None):
         p.p_doc_mostly = True
     return st.fixed_dictionaries({"module": G.module(p, repeat), "layout": G.layout_choices(24),
                                   # parameter-name strip patterns (they shape signatures; doc text stays as written)
-                                  "strip": st.sampled_from(["", "", "^[a-z]", "^_?[a-zA-Z]+_", "[0-9]+$"])})
+                                  "strip": st.sampled_from(["", "", "^[a-z]", "^_?[a-zA-Z]+_", "[0-9]+$"]),
+                                  # the configured kwargs trigger string; doc lines may consist of it alone
+                                  "trig": st.sampled_from([":keyword", "@kwargs", ":keyword", "KWARGS", "\\kwargs"])})
 
 
 def _owners(module):
@@ -221,7 +223,7 @@ def nontrivial(module):
     return nt, labels
 
 
-def prepare(module):
+def prepare(module, trig=":keyword"):
     """'<<P0>>' in a doc line stands for the first parameter of the implementing definition (members) or 'x'."""
     import copy
     mod = copy.deepcopy(module)
@@ -238,10 +240,10 @@ def prepare(module):
         if d:
             p0 = it["impl"]["params"][0] if it["k"] == "member" and it["impl"]["params"] else \
                 it["params"][0] if it["k"] == "func" and it["params"] and it["params"][0].isidentifier() else "x"
-            d["lines"] = [l.replace("<<P0>>", p0).replace("<<HDR>>", "@module") for l in d["lines"]]
+            d["lines"] = [l.replace("<<P0>>", p0).replace("<<HDR>>", "@module").replace("<<TRIG>>", trig) for l in d["lines"]]
         di = it["impl"].get("doc") if "impl" in it else None
         if di:
-            di["lines"] = [l.replace("<<P0>>", "x").replace("<<HDR>>", "@module") for l in di["lines"]]
+            di["lines"] = [l.replace("<<P0>>", "x").replace("<<HDR>>", "@module").replace("<<TRIG>>", trig) for l in di["lines"]]
         if it["k"] == "option" and d and d.get("marker") and int("".join(ch for ch in d["marker"] if ch.isdigit()) or 0) % 3 == 0:
             # the help string repeats the doccomment word for word
             words = " ".join(l.strip() for l in d["lines"] if l.strip())
@@ -249,7 +251,7 @@ def prepare(module):
                 it["help"] = '"' + words + '"'
     if mod.get("moddoc"):
         hdr = "@module" + (" " + mod["moddoc"]["name"] if mod["moddoc"].get("name") else "")
-        mod["moddoc"]["lines"] = [l.replace("<<P0>>", "x").replace("<<HDR>>", hdr) for l in mod["moddoc"]["lines"]]
+        mod["moddoc"]["lines"] = [l.replace("<<P0>>", "x").replace("<<HDR>>", hdr).replace("<<TRIG>>", trig) for l in mod["moddoc"]["lines"]]
     return mod
 
 
@@ -260,7 +262,7 @@ def extra(ctx):
 
 
 def evaluate(case):
-    module, layout = prepare(case["module"]), case["layout"]
+    module, layout = prepare(case["module"], case.get("trig") or ":keyword"), case["layout"]
     res = Result()
     src = R.render(module, layout)
     nt, labels = nontrivial(module)
@@ -277,7 +279,7 @@ def evaluate(case):
     strip = case.get("strip") or ""
     if strip:
         res.labels.append("strip-pattern-configured")
-    run = document_text(src, real_settings(M.MSettings(strip_function=strip, strip_macro=strip, strip_member=strip)))
+    run = document_text(src, real_settings(M.MSettings(trigger=case.get("trig") or ":keyword", strip_function=strip, strip_macro=strip, strip_member=strip)))
     if run.exc is not None:
         res.fail(exc_key(run.exc), repr(run.exc)[:300])
         return res
@@ -305,4 +307,4 @@ def evaluate(case):
 
 
 def describe(case):
-    return {"source": R.render(prepare(case["module"]), case["layout"])}
+    return {"source": R.render(prepare(case["module"], case.get("trig") or ":keyword"), case["layout"])}
